@@ -52,8 +52,8 @@ func NewSimpleURL(u *url.URL) (SimpleURL, error) {
 		case strings.HasPrefix(name, "fields[") && strings.HasSuffix(name, "]") && len(name) > 8:
 			resType := name[7 : len(name)-1]
 
-			if len(values.Get(name)) > 0 {
-				sURL.Fields[resType] = parseCommaList(values.Get(name))
+			if fields := parseCommaList(values.Get(name)); len(fields) > 0 {
+				sURL.Fields[resType] = fields
 			}
 		case strings.HasPrefix(name, "page[") && strings.HasSuffix(name, "]") && len(name) > 6:
 			arg := name[5 : len(name)-1]
